@@ -323,17 +323,33 @@ structure SegScan where
   last : Option Nat := none
 deriving Repr
 
+/-- `ensure!(record_id == last.next())` fails -/
+def unorderedAfter (last : Option Nat) (id : Nat) : Bool :=
+  match last with
+  | some l => decide (id ≠ l + 1)
+  | none => false
+
+def newMin (mn : Option Nat) (id : Nat) : Option Nat :=
+  match mn with
+  | none => some id
+  | some m => some m
+
+def newMax (mx : Option Nat) (id : Nat) : Option Nat :=
+  match mx with
+  | none => some id
+  | some m => if m < id then some id else some m
+
 /-- one iteration of the loop of `scan_segment`; `avail`: the payload is in the file -/
 def scanFrame (s e idx : Nat) (r : Rec) (avail : Bool) (c : SegScan) : Except Err SegScan :=
-  if (match c.last with | some l => decide (r.id ≠ l + 1) | none => false) then
+  if unorderedAfter c.last r.id then
     .error (.unordered r.id ((c.last.getD 0) + 1))
   else
     let p := onNext s e idx r.id c.σ
     if p.2 && !avail then .error .shortRead
     else .ok
       { σ := if p.2 then { p.1 with out := p.1.out ++ [r] } else p.1
-        min := if c.min.isNone then some r.id else c.min
-        max := if (match c.max with | none => true | some m => decide (m < r.id)) then some r.id else c.max
+        min := newMin c.min r.id
+        max := newMax c.max r.id
         last := some r.id }
 
 def scanRecs (s e idx : Nat) : List Rec → SegScan → Except Err SegScan
